@@ -7,7 +7,16 @@ from mirsym import steplib
 PROGS = {}
 BUDGET = {}
 
+PURE = {}
+
+def pure(name):
+    def deco(f):
+        PURE[name] = f; return f
+    return deco
+
 def _case(c):
+    if c.get('pure'):
+        return PURE[c['pure']](PROGS[c['profile']], c, BUDGET)
     return steplib.step_case(PROGS[c['profile']], c, BUDGET)
 
 def budgets(tier):
